@@ -129,3 +129,29 @@ fn h_w_close_with_unsegmentized_data() {
     assert_eq!(data, 1, "the byte submitted before close() was never transmitted");
     assert_eq!(fin.header.seq, 102, "FIN must be numbered after the submitted byte (SND.NXT was 101)");
 }
+
+//# id=witness.syn_with_data props=C01 kind=witness pair=tcb.segment_arrives_listen.text_on_a_syn_is_queued_at_irs_plus_one,tcb.Tcb.process_segment.text_on_a_syn_is_delivered_whole
+// RFC 9293 3.4: a SYN segment may carry data; it occupies the sequence numbers after the SYN and is delivered once the
+// connection is established.  Both the passive side (SYN + data) and the active side (SYN,ACK + data) must deliver it whole.
+#[cfg(vx_replay)]
+#[test]
+fn h_w_syn_with_data() {
+    let (id, local, remote) = ids();
+    // passive open: SYN + "hello" arrives in LISTEN, then the handshake completes
+    let syn = TcpHeaderBuilder::new(2000, 1000, 300).syn().wnd(4096).build(remote, local, b"hello".iter().cloned(), 5).unwrap();
+    let Some(ListenResult::Tcb(mut tcb)) = segment_arrives_listen(Segment::new(syn, Message::new(b"hello".to_vec())), local, remote, 100, 1500) else {
+        panic!("a SYN creates a TCB");
+    };
+    let _ = tcb.segments();
+    let ack = TcpHeaderBuilder::new(2000, 1000, 306).ack(101).wnd(4096).build(remote, local, [].into_iter(), 0).unwrap();
+    let _ = tcb.segment_arrives(Segment::new(ack, Message::default()));
+    assert_eq!(tcb.status(), State::Established);
+    assert_eq!(tcb.receive().to_vec(), b"hello".to_vec(), "passive side: data carried by the SYN");
+    // active open: SYN,ACK + "world" arrives in SYN-SENT
+    let mut tcb = Tcb::open(id, 100, 1500);
+    let _ = tcb.segments();
+    let synack = TcpHeaderBuilder::new(2000, 1000, 300).syn().ack(101).wnd(4096).build(remote, local, b"world".iter().cloned(), 5).unwrap();
+    let _ = tcb.segment_arrives(Segment::new(synack, Message::new(b"world".to_vec())));
+    assert_eq!(tcb.status(), State::Established);
+    assert_eq!(tcb.receive().to_vec(), b"world".to_vec(), "active side: data carried by the SYN,ACK");
+}
